@@ -5,6 +5,11 @@ import (
 	"bytes"
 	"encoding/json"
 	"fmt"
+	"go/ast"
+	"go/importer"
+	"go/parser"
+	"go/token"
+	"go/types"
 	"io"
 	"os"
 	"os/exec"
@@ -14,6 +19,7 @@ import (
 	"strconv"
 	"strings"
 	"sync"
+	"time"
 
 	"verifharness/lib"
 	"verifharness/ref"
@@ -26,7 +32,7 @@ func registerC19() {
 		ID:    "C19",
 		Level: "exploration",
 		Rule: "the fitgen command is built from the working tree and run on the 5 bundled SDK workbooks and on variants in which the product cell (column P) of a PRNG, " +
-			"dependency-closed subset of enabled field and sub-field rows - PRNG subsets of 1-140 rows and class-wide selections (every date_time row, every local_date_time row, every array, every string, every coordinate, every row with components, every sub-field, the first / last row of every message, every other row, all unsigned / signed integer rows, everything but timestamps, every field of half of the messages) - is rewritten to 0 or emptied (everything else in the workbook byte-identical); each configuration is run " +
+			"dependency-closed subset of enabled field and sub-field rows - PRNG subsets of 1-140 rows and class-wide selections (every date_time row, every local_date_time row, every array, every string, every coordinate, every row with components, every sub-field, the first / last row of every message, every other row, all unsigned / signed integer rows, everything but timestamps, every field of half of the messages, every scaled scalar row, every scaled row, every unscaled row, single-message products: file_id plus one message - quick: one message per distinct feature signature, thorough: every message; these get one run plus an in-process type check of the generated package with go/types instead of the full treatment) - is rewritten to 0 or emptied (everything else in the workbook byte-identical); each configuration is run " +
 			"four times into fresh directories (.xlsx with -sdk, and wrapped as FitSDKRelease_X.Y.zip; twice each). Oracles: exit status 0; the four output files byte-identical " +
 			"across all runs; SDK version in header and constants; the generated files compile together with the library's support code (accumu, pfield, latlng, time, types_man, " +
 			"internal/types) in a scratch module, and a dump program linked against them prints every message's struct fields and table entries, which are compared with the " +
@@ -42,7 +48,82 @@ func registerC19() {
 	})
 }
 
-const c19Kinds = 14
+const c19Kinds = 17
+
+// c19SingleMessages returns the messages for which a single-message product (file_id + that message)
+// is generated: every enabled message, or one representative per distinct feature signature
+// (which kinds of rows the message has: scaled scalars, scaled arrays, times, strings, components ...).
+func c19SingleMessages(repo, version string, all bool) []string {
+	data, err := os.ReadFile(filepath.Join(repo, "cmd/fitgen/internal/profile/testdata", version+".xlsx"))
+	if err != nil {
+		return nil
+	}
+	wb, err := ref.ReadXLSX(data)
+	if err != nil {
+		return nil
+	}
+	rows, err := wb.ProfileRows()
+	if err != nil {
+		return nil
+	}
+	sig := map[string]map[string]bool{}
+	var order []string
+	for _, r := range rows {
+		if !r.Enabled || r.Mesg == "file_id" {
+			continue
+		}
+		if sig[r.Mesg] == nil {
+			sig[r.Mesg] = map[string]bool{}
+			order = append(order, r.Mesg)
+		}
+		s := sig[r.Mesg]
+		switch {
+		case r.Scale != "" && r.Array != "":
+			s["scaled-array"] = true
+		case r.Scale != "":
+			s["scaled-scalar"] = true
+		}
+		if r.Type == "date_time" {
+			s["utc"] = true
+		}
+		if r.Type == "local_date_time" {
+			s["local"] = true
+		}
+		if r.Type == "string" {
+			s["string"] = true
+		}
+		if r.Array != "" {
+			s["array"] = true
+		}
+		if len(r.Components) > 0 {
+			s["components"] = true
+		}
+		if r.IsSubfield {
+			s["subfields"] = true
+		}
+		if strings.HasSuffix(r.Name, "_lat") {
+			s["coord"] = true
+		}
+	}
+	if all {
+		return order
+	}
+	seen := map[string]bool{}
+	var out []string
+	for _, m := range order {
+		var keys []string
+		for k := range sig[m] {
+			keys = append(keys, k)
+		}
+		sort.Strings(keys)
+		k := strings.Join(keys, "+")
+		if !seen[k] {
+			seen[k] = true
+			out = append(out, m)
+		}
+	}
+	return out
+}
 
 var workbookVersions = []string{"16.20", "20.14", "20.27", "20.43", "21.40"}
 
@@ -175,6 +256,8 @@ func c19Close(rows []ref.ProfRow, disable map[int]bool) {
 	}
 }
 
+var c19CellP = regexp.MustCompile(`<((?:x:)?)c r="P(\d+)"[^>]*?(?:/>|>.*?</(?:x:)?c>)`)
+
 // patchWorkbook rewrites the product cell of the given rows in the Messages sheet.
 func patchWorkbook(data []byte, sheetFile string, rows map[int]bool, empty func(row int) bool) ([]byte, int, error) {
 	zr, err := zip.NewReader(bytes.NewReader(data), int64(len(data)))
@@ -195,23 +278,20 @@ func patchWorkbook(data []byte, sheetFile string, rows map[int]bool, empty func(
 			return nil, 0, err
 		}
 		if f.Name == sheetFile {
-			s := string(b)
-			for row := range rows {
-				re := regexp.MustCompile(`<((?:x:)?)c r="P` + strconv.Itoa(row) + `"[^>]*?(?:/>|>.*?</(?:x:)?c>)`)
-				n := 0
-				s = re.ReplaceAllStringFunc(s, func(m string) string {
-					n++
-					pre := ""
-					if strings.HasPrefix(m, "<x:") {
-						pre = "x:"
-					}
-					if empty(row) {
-						return "<" + pre + `c r="P` + strconv.Itoa(row) + `"/>`
-					}
-					return "<" + pre + `c r="P` + strconv.Itoa(row) + `"><` + pre + "v>0</" + pre + "v></" + pre + "c>"
-				})
-				patched += n
-			}
+			// one pass over all cells of column P
+			s := c19CellP.ReplaceAllStringFunc(string(b), func(m string) string {
+				sub := c19CellP.FindStringSubmatch(m)
+				row, _ := strconv.Atoi(sub[2])
+				if !rows[row] {
+					return m
+				}
+				patched++
+				pre := sub[1]
+				if empty(row) {
+					return "<" + pre + `c r="P` + sub[2] + `"/>`
+				}
+				return "<" + pre + `c r="P` + sub[2] + `"><` + pre + "v>0</" + pre + "v></" + pre + "c>"
+			})
 			b = []byte(s)
 		}
 		w, err := zw.CreateHeader(&zip.FileHeader{Name: f.Name, Method: zip.Deflate})
@@ -283,7 +363,8 @@ func main() {
 
 type c19Config struct {
 	version string
-	variant int // 0 = stock
+	variant int    // 0 = stock, 1..99 PRNG subsets, 100+kind class-wide selections
+	keep    string // single-message product: file_id plus this message (light treatment: one run + type check)
 }
 
 func copyFile(dst, src string) error {
@@ -310,13 +391,17 @@ func c19Main(c *lib.Ctx) {
 	var cfgs []c19Config
 	for wi, v := range workbookVersions {
 		for k := 0; k <= nvar; k++ {
-			cfgs = append(cfgs, c19Config{v, k})
+			cfgs = append(cfgs, c19Config{version: v, variant: k})
 		}
 		// class-wide selections (variant 100+kind): quick = 3 kinds per workbook, rotating; thorough = all
-		for kind := 0; kind < c19Kinds; kind++ {
-			if c.Tier == "thorough" || (kind+wi)%5 < 2 || kind == (wi*3+int(lib.Seed()))%c19Kinds {
-				cfgs = append(cfgs, c19Config{v, 100 + kind})
+		for kind := 0; kind < 17; kind++ {
+			if c.Tier == "thorough" || (kind+wi)%5 < 2 || kind == (wi*3+int(lib.Seed()))%17 || kind == 14+wi%3 {
+				cfgs = append(cfgs, c19Config{version: v, variant: 100 + kind})
 			}
+		}
+		// single-message products: quick = one message per distinct feature signature, thorough = every message
+		for _, m := range c19SingleMessages(repo, v, c.Tier == "thorough") {
+			cfgs = append(cfgs, c19Config{version: v, variant: 200, keep: m})
 		}
 	}
 	var mu sync.Mutex
@@ -328,13 +413,24 @@ func c19Main(c *lib.Ctx) {
 		go func(i int, cfg c19Config) {
 			defer wg.Done()
 			defer func() { <-sem }()
-			dir := filepath.Join(wd, fmt.Sprintf("cfg-%s-%d", cfg.version, cfg.variant))
+			dir := filepath.Join(wd, fmt.Sprintf("cfg-%s-%d%s", cfg.version, cfg.variant, cfg.keep))
 			os.RemoveAll(dir)
 			os.MkdirAll(dir, 0o755)
 			defer os.RemoveAll(dir)
+			t0 := time.Now()
 			msg, info := c19Run(repo, fitgen, dir, cfg)
 			mu.Lock()
 			defer mu.Unlock()
+			cat := "random"
+			switch {
+			case cfg.keep != "":
+				cat = "single-message"
+			case cfg.variant >= 100:
+				cat = fmt.Sprintf("class-%d", cfg.variant-100)
+			case cfg.variant == 0:
+				cat = "stock"
+			}
+			c.Count("wall_ms_"+cat, time.Since(t0).Milliseconds())
 			c.EvalN(4)
 			if strings.HasPrefix(msg, "INCONCLUSIVE:") {
 				c.Inconclusive("%s", msg)
@@ -348,6 +444,7 @@ func c19Main(c *lib.Ctx) {
 			c.Count("configurations", 1)
 			c.Count("rows_disabled_total", int64(len(info.disabledRows)))
 			c.Count("fitgen_runs", 4)
+			c.Count("typecheck_millis", info.tcMillis)
 			c.Count("messages_compared", int64(info.messages))
 			c.Count("fields_compared", int64(info.fields))
 			if cfg.variant == 1 {
@@ -359,6 +456,7 @@ func c19Main(c *lib.Ctx) {
 }
 
 type c19Info struct {
+	tcMillis     int64
 	disabledRows []int
 	messages     int
 	fields       int
@@ -387,6 +485,9 @@ func c19Run(repo, fitgen, dir string, cfg c19Config) (string, c19Info) {
 	if cfg.variant >= 100 {
 		// class-wide selection: every enabled row of one class
 		kind := cfg.variant - 100
+		if cfg.keep != "" {
+			kind = 100
+		}
 		first, last := map[string]int{}, map[string]int{}
 		for _, r := range rows {
 			if r.Enabled && !r.IsSubfield {
@@ -430,6 +531,14 @@ func c19Run(repo, fitgen, dir string, cfg c19Config) (string, c19Info) {
 				hit = r.Type != "date_time"
 			case 13: // every field of every second message
 				hit = len(r.Mesg)%2 == 0
+			case 14: // every scaled scalar row (scaled arrays stay)
+				hit = r.Scale != "" && r.Array == "" && !r.IsSubfield
+			case 15: // every scaled row
+				hit = r.Scale != ""
+			case 16: // every row without scale
+				hit = r.Scale == ""
+			case 100: // a single-message product: file_id plus one message, everything else off
+				hit = r.Mesg != "file_id" && r.Mesg != cfg.keep
 			}
 			if hit {
 				disable[r.RowNum] = true
@@ -496,6 +605,24 @@ func c19Run(repo, fitgen, dir string, cfg c19Config) (string, c19Info) {
 		os.WriteFile(zipPath, zb.Bytes(), 0o644)
 	}
 	files := []string{"messages.go", "types.go", "profile.go", "types_string.go"}
+	if cfg.keep != "" {
+		// light treatment: one run of the command, then a type check of the generated package with its support code
+		out := filepath.Join(dir, "out")
+		os.MkdirAll(out, 0o755)
+		cmd := exec.Command(fitgen, "-sdk", cfg.version, xlsxPath, out)
+		cmd.Dir = dir
+		if b, err := cmd.CombinedOutput(); err != nil {
+			return fmt.Sprintf("fitgen failed on the single-message product file_id + %s: %v: %s", cfg.keep, err, tail(b, 500)), info
+		}
+		t0 := time.Now()
+		msg := c19TypeCheck(repo, out)
+		info.tcMillis = time.Since(t0).Milliseconds()
+		if msg != "" {
+			return fmt.Sprintf("single-message product file_id + %s: generated sources do not compile with the library's support code: %s", cfg.keep, msg), info
+		}
+		info.messages = 1
+		return "", info
+	}
 	var first map[string][]byte
 	for run := 0; run < 4; run++ {
 		out := filepath.Join(dir, fmt.Sprintf("out%d", run))
@@ -631,4 +758,78 @@ func c19Run(repo, fitgen, dir string, cfg c19Config) (string, c19Info) {
 		return fmt.Sprintf("%d messages registered in the generated tables, the workbook has %d", len(d.Messages), len(expect)), info
 	}
 	return "", info
+}
+
+var (
+	c19TCmu  sync.Mutex
+	c19Imp   types.Importer
+	c19Fset  = token.NewFileSet()
+	c19Types *types.Package
+)
+
+type c19Importer struct{ std types.Importer }
+
+func (i c19Importer) Import(path string) (*types.Package, error) {
+	if path == "github.com/tormoder/fit/internal/types" {
+		return c19Types, nil
+	}
+	return i.std.Import(path)
+}
+
+// c19TypeCheck type-checks the generated files in dir together with the library's support files
+// (the compiler's front end: unused imports, undefined names, type errors), without building.
+func c19TypeCheck(repo, dir string) string {
+	c19TCmu.Lock()
+	defer c19TCmu.Unlock()
+	if c19Imp == nil {
+		c19Imp = importer.ForCompiler(c19Fset, "source", nil)
+	}
+	parse := func(paths []string) ([]*ast.File, error) {
+		var fs []*ast.File
+		for _, p := range paths {
+			f, err := parser.ParseFile(c19Fset, p, nil, 0)
+			if err != nil {
+				return nil, err
+			}
+			fs = append(fs, f)
+		}
+		return fs, nil
+	}
+	if c19Types == nil {
+		tfiles, _ := filepath.Glob(filepath.Join(repo, "internal/types/*.go"))
+		var keep []string
+		for _, f := range tfiles {
+			if !strings.HasSuffix(f, "_test.go") {
+				keep = append(keep, f)
+			}
+		}
+		fs, err := parse(keep)
+		if err != nil {
+			return "harness: " + err.Error()
+		}
+		pkg, err := (&types.Config{Importer: c19Imp}).Check("github.com/tormoder/fit/internal/types", c19Fset, fs, nil)
+		if err != nil {
+			return "harness: internal/types: " + err.Error()
+		}
+		c19Types = pkg
+	}
+	var paths []string
+	for _, f := range []string{"messages.go", "types.go", "profile.go", "types_string.go"} {
+		paths = append(paths, filepath.Join(dir, f))
+	}
+	for _, f := range []string{"accumu.go", "pfield.go", "latlng.go", "time.go", "types_man.go"} {
+		paths = append(paths, filepath.Join(repo, f))
+	}
+	fs, err := parse(paths)
+	if err != nil {
+		return err.Error()
+	}
+	var errs []string
+	conf := types.Config{Importer: c19Importer{c19Imp}, Error: func(e error) {
+		if len(errs) < 5 {
+			errs = append(errs, e.Error())
+		}
+	}}
+	conf.Check("github.com/tormoder/fit", c19Fset, fs, nil)
+	return strings.Join(errs, "; ")
 }
